@@ -29,6 +29,7 @@ type Mod struct {
 	Name     string
 	Owner    string
 	Imports  []string
+	Alias    map[string]string // further imports under a prefix that differs from the module name: prefix -> module
 	Includes []string
 	Body     []*S
 }
@@ -104,6 +105,14 @@ func (m *Mod) Text() string {
 	}
 	for _, i := range m.Imports {
 		fmt.Fprintf(&sb, " import %s { prefix %s; }", i, i)
+	}
+	var aliases []string
+	for p := range m.Alias {
+		aliases = append(aliases, p)
+	}
+	sort.Strings(aliases)
+	for _, p := range aliases {
+		fmt.Fprintf(&sb, " import %s { prefix %s; }", m.Alias[p], p)
 	}
 	for _, i := range m.Includes {
 		fmt.Fprintf(&sb, " include %s;", i)
@@ -213,6 +222,9 @@ func split(name string) (pfx, base string) {
 }
 
 func (w *World) imports(m *Mod, pfx string) *Mod {
+	if t, ok := m.Alias[pfx]; ok {
+		return w.Mods[t]
+	}
 	for _, i := range m.Imports {
 		if i == pfx {
 			return w.Mods[i]
